@@ -2,8 +2,13 @@ PROP = dict(
     id="C16",
     engines=["c16"],
     go_tags=["c16"],
+    extract_files={"MM/Gen/LockC16.lean": {"cmd": ["go", "run", "{VERIF}/tools/lockshape.go", "LockC16",
+        "{REPO}/internal/agent/relay_table.go",
+        "relayTable.Insert,relayTable.Delete,relayTable.LookupBoth,relayTable.LookupDownstream,relayTable.PopDownstreamFromPeer,relayTable.PopMatchingPeer,relayTable.DeleteByPeer",
+        "mu", "byUpstream,byDownstream"]}},
     lean_modules=["MM.Props.C16"],
     theorems=[
+        "MM.C16.C16_lock_table_methods_atomic",
         "MM.C16.consistent_empty",
         "MM.C16.C16_relay_index_consistent",
         "MM.C16.consistent_delete",
